@@ -131,6 +131,13 @@ def case_dump_one(case):
         data, feats = wo.make(rng, fmt, nbasis_max=20, contraction="generalized" if case["i"] % 2 else None,
                               spin="aminusb" if case["i"] % 2 == 0 else None, ghosts="none" if fmt == "molekel" else None)
         feats["klass"] = "needs-conversion"
+        if case["i"] % 4 == 0 and data.mo.occs_aminusb is not None and data.mo.norb >= 2:
+            # correlated natural orbitals: an occupation slightly below zero (and one above two), spin part of that orbital zero
+            occs, amb = data.mo.occs.copy(), data.mo.occs_aminusb.copy()
+            occs[-1], amb[-1] = -0.003, 0.0
+            occs[0], amb[0] = 2.002, 0.0
+            data.mo.occs, data.mo.occs_aminusb = occs, amb
+            feats["klass"] = "needs-conversion-natural-negative"
     elif fmt in ("xyz", "pdb", "mol2", "sdf") and case["i"] % 4 == 3:
         # an object that comes from ANOTHER format (bond types, charges, labels the target does not know: MOL2's amide / dummy /
         # not-connected bonds written to SDF, SDF's types 5-8 written to MOL2, ...)
